@@ -58,6 +58,15 @@ Theorem C01_drain_sorted :
 Proof. exact drain_sorted. Qed.
 Print Assumptions C01_drain_sorted.
 
+(* Looking does not touch: peek_first, contains, size, is_empty, str(el) and
+   repr(el) leave the abstract queue -- and the heap array itself -- exactly as
+   it was, so no later pop can depend on whether the list was looked at. *)
+Theorem C01_observers_leave_queue_unchanged :
+  (forall s op, is_observer op = true -> fst (spec_step s op) = s) /\
+  (forall L h op, is_observer op = true -> fst (impl_step L h op) = h).
+Proof. exact (conj spec_observer_unchanged impl_observer_unchanged). Qed.
+Print Assumptions C01_observers_leave_queue_unchanged.
+
 (* The comparison operators of events form a strict total order that agrees
    with the key order of the event list. *)
 Theorem C01_event_comparisons_strict_total_order :
@@ -114,7 +123,9 @@ Theorem C01_generated_model_is_the_proved_model :
   (forall L h, lower OutKey (gen_EventListHeap_peek_first L h) = Some (impl_peek_first L h) /\
                lower OutNat (gen_EventListHeap_size L h) = Some (impl_size L h) /\
                lower OutBool (gen_EventListHeap_is_empty L h) = Some (impl_is_empty L h) /\
-               lower out_none (gen_EventListHeap_clear L h) = Some (impl_clear L h)) /\
+               lower out_none (gen_EventListHeap_clear L h) = Some (impl_clear L h) /\
+               lower out_str (gen_EventListHeap___str__ L h) = Some (impl_str L h) /\
+               lower out_str (gen_EventListHeap___repr__ L h) = Some (impl_repr L h)) /\
   (forall L, (forall h, hpop L h = None -> h = []) ->
              forall h, lower OutKey (gen_EventListHeap_pop_first L h) = Some (impl_pop_first L h)) /\
   (forall L, lib_sane L -> forall h op, gen_step L h op = Some (impl_step L h op)) /\
@@ -172,6 +183,13 @@ Theorem C01_generated_ids_are_creation_stamps :
     e_id (nth i (gen_create_all cv specs) d) = (cv_base cv + 1 + Z.of_nat i)%Z.
 Proof. exact gen_created_ids_are_creation_stamps. Qed.
 Print Assumptions C01_generated_ids_are_creation_stamps.
+
+(* C01_observers_leave_queue_unchanged, for the generated methods *)
+Theorem C01_generated_observers_leave_list_unchanged :
+  forall L, lib_sane L -> forall h op, is_observer op = true ->
+    match gen_step L h op with Some (h', _) => h' = h | None => False end.
+Proof. exact gen_observers_leave_list_unchanged. Qed.
+Print Assumptions C01_generated_observers_leave_list_unchanged.
 
 (* non-vacuity of the hypotheses used above *)
 Example C01_generated_hypotheses_satisfiable : heap_contract heapq /\ lib_sane heapq.
